@@ -258,12 +258,25 @@ func (x *lh) apply(op seqmc.Op) *seqmc.Fail {
 		for e, n := r.Front(), 0; e != nil && n < travCap; e, n = e.Next(), n+1 {
 			before[e] = true
 		}
-		if op.Name == "PushBackList" {
-			l.PushBackList(x.L[op.B])
-			r.PushBackList(x.R[op.B])
-		} else {
-			l.PushFrontList(x.L[op.B])
-			r.PushFrontList(x.R[op.B])
+		// (in the ill-formed states of the stale search container/list itself can panic half-way through
+		// the copy; the fork must panic too, and be left in the same state)
+		back := op.Name == "PushBackList"
+		pa, _ := enum.Catch(func() {
+			if back {
+				l.PushBackList(x.L[op.B])
+			} else {
+				l.PushFrontList(x.L[op.B])
+			}
+		})
+		pb, _ := enum.Catch(func() {
+			if back {
+				r.PushBackList(x.R[op.B])
+			} else {
+				r.PushFrontList(x.R[op.B])
+			}
+		})
+		if pa != pb {
+			return seqmc.Failf(op.Name+":panic", "%s panicked: %v, container/list panicked: %v", op.Name, pa, pb)
 		}
 		// register handles for the copies, walking both lists in lock-step
 		e, re := l.Front(), r.Front()
